@@ -55,6 +55,10 @@ pub struct Case {
     pub exiters: u8,
     pub limit: Option<u32>,
     pub steps: Vec<Step>,
+    /// caller-supplied auxiliary-vector values that differ from the kernel's: the entry address lies in
+    /// another module (1), additionally the program headers are declared absent (2)
+    #[serde(default)]
+    pub direct_auxv: u8,
 }
 
 pub fn check(c: &Case) -> Verdict {
@@ -94,9 +98,18 @@ pub fn check(c: &Case) -> Verdict {
     }
     let pid = t.pid;
     let tids: Vec<i32> = std::iter::once(pid).chain(parked_ids.iter().map(|id| t.tid(*id))).collect();
+    let direct: Option<[u64; 4]> = if c.direct_auxv % 3 == 0 {
+        None
+    } else {
+        // an address inside the C library's executable mapping: that module must then be listed first
+        let maps = crate::props::fid::parse_maps(&t.maps_text().unwrap_or_default());
+        let other = maps.iter().find(|l| l.perms & 4 != 0 && l.name.contains("libc")).map(|l| l.start + 0x40);
+        let a = crate::props::c01::true_auxv(pid);
+        other.map(|e| if c.direct_auxv % 3 == 1 { [a[0], a[1], 0, e] } else { [a[0], a[1], a[2], e] })
+    };
     let opts_of = |s: &Step| -> DumpOpts {
         let blamed = if s.blamed_foreign { std::process::id() as i32 } else { tids[pick(s.blamed, tids.len())] };
-        let mut o = DumpOpts { blamed, sanitize: s.sanitize, skip_unreferenced: s.skip, size_limit: c.limit.map(|l| l as u64 + 60_000), ..Default::default() };
+        let mut o = DumpOpts { blamed, sanitize: s.sanitize, skip_unreferenced: s.skip, size_limit: c.limit.map(|l| l as u64 + 60_000), direct_auxv: direct, ..Default::default() };
         if s.crash {
             let mut sd = 7u64;
             let mut gregs: Vec<i64> = (0..23).map(|_| splitmix(&mut sd) as i64).collect();
@@ -303,8 +316,8 @@ pub fn run(ctx: &mut LaneCtx) {
         SubSpec {
             name: "reuse-history",
             cases: (960, 15_000),
-            rule: "one writer, 2..5 dump() calls, some of which are made to fail (destination I/O error at a generated call, unreadable app memory); between calls the public configuration (blamed thread, crash context on/off, app memory, principal address, skip, sanitize) may change or the writer is left untouched, and the target may change (an exiter thread is cued; the last page of the application mapping - into which registered regions may run - becomes inaccessible or accessible again); after each call a freshly configured writer dumps the same blocked target; oracle = strict structure of both + normal-form equality; non-trivial = >= 2 calls with a memory-producing option or a change between calls; distinct = hash of case",
-            strategy: (0u8..6, 0u8..3, proptest::option::weighted(0.3, 0u32..20_000), proptest::collection::vec(step_strategy(), 2..6)).prop_map(|(parked, exiters, limit, steps)| Case { parked, exiters, limit, steps }).boxed(),
+            rule: "one writer (optionally configured with caller-supplied auxiliary-vector values that differ from the kernel's: entry address in another module), 2..5 dump() calls, some of which are made to fail (destination I/O error at a generated call, unreadable app memory); between calls the public configuration (blamed thread, crash context on/off, app memory, principal address, skip, sanitize) may change or the writer is left untouched, and the target may change (an exiter thread is cued; the last page of the application mapping - into which registered regions may run - becomes inaccessible or accessible again); after each call a freshly configured writer dumps the same blocked target; oracle = strict structure of both + normal-form equality; non-trivial = >= 2 calls with a memory-producing option or a change between calls; distinct = hash of case",
+            strategy: (0u8..6, 0u8..3, proptest::option::weighted(0.3, 0u32..20_000), proptest::collection::vec(step_strategy(), 2..6), prop_oneof![2 => Just(0u8), 1 => 1u8..3]).prop_map(|(parked, exiters, limit, steps, direct_auxv)| Case { parked, exiters, limit, steps, direct_auxv }).boxed(),
             max_shrink_iters: 100,
             log_current: true,
         },
